@@ -78,6 +78,10 @@ func init() {
 		e.assert(args[0].(*smt.Term), strArg(e, args[1]), e.posOfCaller())
 		return nil
 	}
+	zzapi["zzAssertMsg"] = func(e *Engine, args []Value, fn *ssa.Function) Value {
+		e.assert(args[0].(*smt.Term), strArg(e, args[1])+": "+normDigits(strArg(e, args[2])), e.posOfCaller())
+		return nil
+	}
 	zzapi["zzCover"] = func(e *Engine, args []Value, fn *ssa.Function) Value {
 		e.rep.AssertSites["cover:"+strArg(e, args[0])]++
 		return nil
@@ -98,7 +102,7 @@ func init() {
 		if p == nil {
 			return Str{}
 		}
-		return Str{S: "panic: " + p.msg}
+		return Str{S: "panic at " + p.pos + ": " + p.msg}
 	}
 	zzapi["zzYield"] = func(e *Engine, args []Value, fn *ssa.Function) Value { e.yield(); return nil }
 	zzapi["zzQuiesce"] = func(e *Engine, args []Value, fn *ssa.Function) Value { e.quiesce(); return nil }
@@ -314,4 +318,39 @@ func containsAny(s string, subs ...string) bool {
 		}
 	}
 	return false
+}
+
+// normDigits replaces free-standing digit runs by '#' so that findings are grouped by
+// kind, not by value; digits that are part of identifiers, paths or file:line stay.
+func normDigits(s string) string {
+	out := make([]byte, 0, len(s))
+	isWord := func(c byte) bool {
+		return c >= 'a' && c <= 'z' || c >= 'A' && c <= 'Z' || c == '_' || c == '.' || c == '/' || c == '#'
+	}
+	for i := 0; i < len(s); {
+		c := s[i]
+		if c < '0' || c > '9' {
+			out = append(out, c)
+			i++
+			continue
+		}
+		j := i
+		for j < len(s) && s[j] >= '0' && s[j] <= '9' {
+			j++
+		}
+		keep := false
+		if i > 0 && isWord(s[i-1]) {
+			keep = true
+		}
+		if i >= 4 && s[i-1] == ':' && s[i-4:i-1] == ".go" {
+			keep = true
+		}
+		if keep {
+			out = append(out, s[i:j]...)
+		} else {
+			out = append(out, '#')
+		}
+		i = j
+	}
+	return string(out)
 }
